@@ -63,7 +63,7 @@ def required(tier):
     b.update({f'amode:{k}': 100 for k in AMODES})
     b.update({f'asize:{k}': 100 for k in ASIZES})
     b.update({'array:partition-mode': 800, 'array:ragged-expected': 100, 'array:uniform-expected': 300,
-              'array:empty-expected': 10, 'array:nonsquare-tiles': 300, 'fil:output-dir-already-populated': 50})
+              'array:empty-expected': 10, 'array:nonsquare-tiles': 300, 'fil:output-dir-already-populated': 50, 'input-path-rewritten': 200})
     return {'buckets': b, 'counters': {'pieces_compared': 10000, 'frames_built': 1000, 'files_loaded': 500,
                                        'tiles_compared': 5000},
             'checks': 20000, 'nontrivial': 1000}
@@ -426,6 +426,17 @@ def run_file(c, R, stg):
         R.bucket(('api' if k == 'kind' else k) + ':' + c[k])
     R.bucket('orient:asc' if c['asc'] else 'orient:desc')
     try:
+        if c.get('_idx', 0) % 4 == 1:
+            # history: this very path held ANOTHER observation (other geometry and header) that the library has already split
+            R.bucket('input-path-rewritten')
+            d_nch, d_T = nch + 7 + (nch % 5), max(1, T - 1) + 2
+            d_fch = max(1, min(fch + 1, d_nch))
+            write_fil(path, np.ones((d_T, d_nch), dtype=np.float32), c['fch1'] + 11.0, -foff * 2, c['tsamp'] * 3, c['tstart'], c['extras'])
+            with common.quiet():
+                for _k, _wf in enumerate(stg.split_waterfall_generator(path, d_fch)):
+                    if _k >= 2:
+                        break
+            os.remove(path)
         if c['route'] == 'raw':
             write_fil(path, coded, c['fch1'], foff, c['tsamp'], c['tstart'], c['extras'])
         else:
